@@ -309,8 +309,8 @@ func buildGrammar() *grammar {
 	g.val("route.publish", "enabled", "enabled", "off")
 	g.val("route.publish", "direct", "direct", "off")
 	g.val("route.publish", "managed", "managed", "off")
-	g.val("route", "publish.direct", "publish.direct", "off")
-	g.val("route", "publish.managed", "publish.managed", "off")
+	g.val("route", "publish_dot_direct", "publish.direct", "off")
+	g.val("route", "publish_dot_managed", "publish.managed", "off")
 	g.val("route", "deliver_concurrency", "deliver_concurrency", "7")
 	g.fixed("route", "pull_block", spelling{name: "pull", text: "pull\n{\npath /e9\n}", needs: []string{"pull_api"}})
 
